@@ -14,7 +14,9 @@ import (
 	"sync"
 	"time"
 
+	"github.com/go-kit/log"
 	"github.com/prometheus/client_golang/prometheus"
+	"github.com/prometheus/prometheus/config"
 	"github.com/prometheus/prometheus/model/labels"
 	pscrape "github.com/prometheus/prometheus/scrape"
 	"github.com/sirupsen/logrus"
@@ -45,6 +47,38 @@ type Options struct {
 	PeriodMS int `json:"periodMs,omitempty"`
 	// IdleMS: --shard.max-idle-time in milliseconds when scale-down is on (0 = one hour)
 	IdleMS int `json:"idleMs,omitempty"`
+	// TargetLimit: target_limit of the jobs in the coordinator's parsed configuration (0 = none); together with a
+	// few other per-job limits it makes the configuration the coordinator sees a real, parsed one
+	TargetLimit int `json:"targetLimit,omitempty"`
+}
+
+var (
+	parsedMu  sync.Mutex
+	parsedCfg = map[int]*config.Config{}
+)
+
+// parsedConfig returns the parsed scrape configuration the coordinator's ConfigInfo carries in a scenario.
+func parsedConfig(targetLimit int) *config.Config {
+	parsedMu.Lock()
+	defer parsedMu.Unlock()
+	if c, ok := parsedCfg[targetLimit]; ok {
+		return c
+	}
+	var b strings.Builder
+	b.WriteString("global:\n  scrape_interval: 30s\n  scrape_timeout: 10s\nscrape_configs:\n")
+	for i, j := range []string{"j0", "j1"} {
+		fmt.Fprintf(&b, "- job_name: %s\n  honor_labels: %v\n  sample_limit: %d\n  label_limit: 40\n", j, i == 1, 5000*(i+1))
+		if targetLimit > 0 {
+			fmt.Fprintf(&b, "  target_limit: %d\n", targetLimit+i)
+		}
+		b.WriteString("  static_configs:\n  - targets: ['placeholder:1']\n")
+	}
+	c, err := config.Load(b.String(), false, log.NewNopLogger())
+	if err != nil {
+		panic(err)
+	}
+	parsedCfg[targetLimit] = c
+	return c
 }
 
 // NearMarginMS: a shard whose idle state is "near" has been idle for max-idle-time minus this margin when the
@@ -569,7 +603,8 @@ func ExecSeq(scs []*Scenario) []*Transcript {
 		cur.Lock()
 		cur.active = Active(scs[k])
 		cur.explore = explorers[k]
-		cur.cfg = &prom.ConfigInfo{RawContent: []byte(CoordRaw), ConfigHash: CoordHash, ExtraConfig: &prom.ExtraConfig{StopScrapeReason: scs[k].Stop}}
+		cur.cfg = &prom.ConfigInfo{RawContent: []byte(CoordRaw), ConfigHash: CoordHash, ExtraConfig: &prom.ExtraConfig{StopScrapeReason: scs[k].Stop},
+			Config: parsedConfig(scs[k].Opt.TargetLimit)}
 		cur.Unlock()
 	}
 	setCycle(0)
